@@ -5,7 +5,7 @@ CONSTANTS
   Ops <- AllOps
   Schemes <- AllSchemes
   Dongles <- DonglesThorough
-  Chans = {0, 2, 80, 125}
+  Chans = {0, 2, 125}
   Rates = {"250K", "1M", "2M"}
   AddrSet <- AddrThorough
   RateLimits <- RlQuick
